@@ -2,7 +2,8 @@
 (* C46, numeric part: peerHandler.nextBackoff.
      if d < Max:  d := d + d/2 + rand[0, d)
      if d > Max:  d := Max - rand[0, Max * Jitter / 100)
-   M: all sequences of MaxFails consecutive failures in whole seconds (InitDelay = 5, MaxDelay = 600).
+   M: all sequences of consecutive failures in whole seconds (InitDelay = 5, MaxDelay = 600); the failure
+      counter n saturates at MaxFails (only "n >= 13" matters), so sequences of any length (>= 100) are covered.
    T: (prev, next) pairs recorded from the real nextBackoff in milliseconds are checked against InBackoffMs,
       which allows for the truncation of nanoseconds to milliseconds. *)
 EXTENDS Integers, Sequences, TLC, Json
@@ -15,7 +16,7 @@ Cap(x) == IF x > MaxDelay THEN {MaxDelay - j : j \in 0..((MaxDelay * JitterPct) 
 Backoff(x) == IF x < MaxDelay THEN UNION {Cap(x + x \div 2 + r) : r \in 0..(x - 1)} ELSE Cap(x)
 
 BInit == d = InitDelay /\ n = 0
-BNext == n < MaxFails /\ d' \in Backoff(d) /\ n' = n + 1
+BNext == d' \in Backoff(d) /\ n' = (IF n < MaxFails THEN n + 1 ELSE n)
 BSpec == BInit /\ [][BNext]_bvars
 
 \* every scheduled delay is in (0, 10 minutes]
